@@ -318,6 +318,14 @@ RESTART:
 		return tmconsensus.HandleProposedHeaderBadBlockHash
 	}
 
+	// The validator set the header names for its own height
+	// must be the set this node uses at that height:
+	// once the header is committed, that field is what the previous commit proof
+	// of the next height's proposals is verified against.
+	if !ph.Header.ValidatorSet.Equal(checkResp.ValidatorSet) {
+		return tmconsensus.HandleProposedHeaderBadBlockHash
+	}
+
 	// Validate the signature based on the public key the kernel reported.
 	signContent, err := tmconsensus.ProposalSignBytes(ph.Header, ph.Round, ph.Annotations, m.sigScheme)
 	if err != nil {
